@@ -50,6 +50,15 @@ const (
 	fpEnqBlocked  = "enqueue-stop-race:enqueue-blocked-forever"
 	fpStopBlocked = "stop-blocked-forever:no-writer"
 	fpStopIdle    = "stop-blocked-forever:writer-idle-without-timer"
+	fpStopRecv    = "stop-blocked-forever:writer-blocked-in-receive"
+	fpStopSpin    = "stop-blocked-forever:writer-spins-on-empty-batches"
+
+	// spinBound (rule R5): empty Batched/Cancel cycles the writer may still perform once nothing is
+	// left to do. On the unchanged tree the writer leaves its loop at the first check that finds
+	// running == false and scheduledCount == 0, i.e. after at most one more cycle; 200 is two
+	// orders of magnitude of slack and counts logical steps of the writer, not time, so it does
+	// not depend on machine load.
+	spinBound = 200
 	fpDoneEarly   = "done-before-commit"
 	fpDoneNoWrite = "done-without-write"
 	fpHalf        = "write-without-commit-or-done"
@@ -136,6 +145,7 @@ type mon struct {
 	wev        atomic.Int64 // number of writer-side calls observed (Batched, BatchWrite, Reset, Commit, Cancel, Done)
 	emptyLoops atomic.Int64 // store.Batched() calls that directly followed the Cancel of an empty batch
 	lastWK     byte         // last writer-side kind; only touched by the writer goroutine
+	nW, nD     atomic.Int64 // BatchWrite / BatchWriteDone calls
 	compacted  int          // empty N/X pairs dropped from the log (a time-out <= 0 makes an idle writer spin)
 }
 
@@ -159,6 +169,12 @@ func (m *mon) wlog(e ev) {
 		m.emptyLoops.Add(1)
 	}
 	m.lastWK = e.K
+	switch e.K {
+	case 'W':
+		m.nW.Add(1)
+	case 'D':
+		m.nD.Add(1)
+	}
 	m.wev.Add(1)
 	m.log(e)
 }
@@ -338,6 +354,7 @@ type scen struct {
 	start  time.Time
 	// writerIdle: the run ended by rule R3 with the writer goroutine alive but idle for ever
 	writerIdle bool
+	abortAfter bool
 }
 
 var cur atomic.Pointer[scen]
@@ -549,6 +566,27 @@ func liveWriter(gs []gdump.G) (gdump.G, bool) {
 	return gdump.G{}, false
 }
 
+func liveWriters(gs []gdump.G) (out []gdump.G) {
+	for _, g := range gs {
+		if strings.Contains(g.Raw, kvPkg) && !isHarnessGoroutine(g) && !leakedWriters[g.ID] {
+			out = append(out, g)
+		}
+	}
+	return
+}
+
+// settled: nothing is left to do for the writer – no object has its scheduled flag set (every
+// accepted scheduling was collected) and every BatchWrite was acknowledged by BatchWriteDone.
+// Only meaningful while no Enqueue is in progress.
+func (s *scen) settled() bool {
+	for _, o := range s.objs {
+		if o.scheduled.Load() {
+			return false
+		}
+	}
+	return s.m.nW.Load() == s.m.nD.Load()
+}
+
 func writerAlive(gs []gdump.G) bool { _, ok := liveWriter(gs); return ok }
 
 // idleTracker measures for how long the writer goroutine has been parked in the select of
@@ -609,10 +647,21 @@ func inStopWait(g gdump.G) bool {
 //	   on batchQueue or flushChan, and a pending batch timer would be overdue by that factor, so no
 //	   timer is pending and the select never returns. Unlike R1/R2 this is relative to the
 //	   configured time-out; anything short of it ends as INCONCLUSIVE through the case guard.
+//	R4 same caller condition as R3, and every writer goroutine is parked in state "chan receive"
+//	   (not select: no timer can end it) with the receive statement in package kvstore: the only
+//	   senders on the package's channels are Enqueue/Flush callers, all of which have returned, so
+//	   the receive never completes (one consistent snapshot decides).
+//	R5 bounded progress in logical steps: Stop is parked in WaitGroup.Wait, every other caller has
+//	   returned, nothing is left to do (settled: no scheduled flag set, #BatchWrite == #Done), and
+//	   the writer has since gone through more than spinBound empty Batched/Cancel cycles without
+//	   exiting – see spinBound for why that cannot happen on a tree where the property holds.
+//	All rules are evaluated on every poll, so a run that ends in the case guard has tried them all
+//	on its last snapshot and log.
 func (s *scen) finishWait() (ok bool) {
 	var w waiter
 	var idle idleTracker
 	stopHung := false
+	spinBase := int64(-1)
 	for {
 		all := true
 		for _, a := range s.actors {
@@ -643,19 +692,52 @@ func (s *scen) finishWait() (ok bool) {
 					onlyStops = false
 				}
 			}
+			decided := ""
 			if !onlyStops || len(behind) > 0 && len(waiting) == 0 {
 				idle.observe(s.m, wg, false)
-			} else if idle.observe(s.m, wg, true) >= s.cs.idleBound() {
-				for _, a := range waiting {
-					a.hung, a.dump = fpStopIdle, a.dump+"\n\n"+wg.Raw
+				spinBase = -1
+			} else {
+				ws := liveWriters(gs)
+				allRecv := true
+				for _, g := range ws {
+					if !strings.HasPrefix(g.State, "chan receive") || !selectInKvstore(g) {
+						allRecv = false
+					}
 				}
-				for _, a := range behind {
-					a.hung = "behind-blocked-stop"
+				switch {
+				case allRecv:
+					decided = fpStopRecv // R4
+				case idle.observe(s.m, wg, true) >= s.cs.idleBound():
+					decided = fpStopIdle // R3
+				case len(waiting) > 0 && s.settled():
+					// R5
+					if n := s.m.emptyLoops.Load(); spinBase < 0 {
+						spinBase = n
+					} else if n-spinBase > spinBound {
+						decided = fpStopSpin
+					}
+				default:
+					spinBase = -1
 				}
-				leakedWriters[wg.ID] = true
-				s.writerIdle = true
-				s.c.Count("writer_idle_without_timer_decided", 1)
-				return true
+				if decided != "" {
+					var dump strings.Builder
+					for _, g := range ws {
+						dump.WriteString("\n\n" + g.Raw)
+						leakedWriters[g.ID] = true
+					}
+					for _, a := range waiting {
+						a.hung, a.dump = decided, a.dump+dump.String()
+					}
+					for _, a := range behind {
+						a.hung = "behind-blocked-stop"
+					}
+					s.writerIdle = true
+					// a writer that keeps cycling stays behind: this process stops after the run, the
+					// parent resumes the remaining cases in a fresh one
+					s.abortAfter = decided == fpStopSpin
+					s.c.Count("decided:"+decided, 1)
+					return true
+				}
 			}
 		}
 		if !wa {
@@ -957,6 +1039,10 @@ func (s *scen) report(extraKey string) []string {
 			viol(a.hung, fmt.Sprintf("actor%d is blocked for ever in BatchedWriter.Enqueue (chan send on batchQueue) – no writer goroutine (any goroutine of package kvstore that the harness did not create) is alive and autoStartOnce prevents a restart", a.idx), a.dump)
 		case fpStopBlocked:
 			viol(a.hung, fmt.Sprintf("actor%d is blocked for ever in StopBatchWriter (writeWg.Wait) – no writer goroutine alive to call Done", a.idx), a.dump)
+		case fpStopRecv:
+			viol(a.hung, fmt.Sprintf("actor%d is blocked for ever in StopBatchWriter (writeWg.Wait): every other caller has returned and the writer goroutine is parked in a plain channel receive (no select, no timer) inside package kvstore – nobody is left who could send", a.idx), a.dump)
+		case fpStopSpin:
+			viol(a.hung, fmt.Sprintf("actor%d is blocked for ever in StopBatchWriter (writeWg.Wait): every other caller has returned, no object is scheduled and every BatchWrite was committed and acknowledged, yet the writer went through more than %d further empty Batched/Cancel cycles without exiting (unchanged tree: at most one)", a.idx, spinBound), a.dump)
 		case fpStopIdle:
 			viol(a.hung, fmt.Sprintf("actor%d is blocked for ever in StopBatchWriter (writeWg.Wait): every other caller has returned and the writer goroutine sat in the select of collectValues without any writer-side event for more than %s (500x the configured batch time-out %s, at least 2 s) – a batch timer would have fired long ago, so none is pending", a.idx, s.cs.idleBound(), s.cs.timeout()), a.dump)
 		}
@@ -1101,7 +1187,7 @@ func runGated(c *vf.Ctx, cs *caseRec) ([]string, bool) {
 	if !s.finishWait() {
 		return nil, false
 	}
-	return s.report(shortPoint(cs.Point) + "/" + cs.Release + "/" + state), true
+	return s.report(shortPoint(cs.Point) + "/" + cs.Release + "/" + state), !s.abortAfter
 }
 
 func shortPoint(p string) string {
@@ -1145,7 +1231,7 @@ func runEnqStop(c *vf.Ctx, cs *caseRec) ([]string, bool) {
 	if !s.finishWait() || blind.Load() {
 		return nil, false
 	}
-	return s.report(fmt.Sprintf("v%d", variant)), true
+	return s.report(fmt.Sprintf("v%d", variant)), !s.abortAfter
 }
 
 func runStress(c *vf.Ctx, cs *caseRec) ([]string, bool) {
@@ -1197,7 +1283,7 @@ func runStress(c *vf.Ctx, cs *caseRec) ([]string, bool) {
 	if !s.finishWait() {
 		return nil, false
 	}
-	return s.report(""), true
+	return s.report(""), !s.abortAfter
 }
 
 // ---------------------------------------------------------------- child
@@ -1223,7 +1309,10 @@ func child(c *vf.Ctx) {
 			bs, _ := json.Marshal(cs)
 			c.Mark(string(bs))
 			if _, ok := runCase(c, cs); !ok {
-				return // leaked live goroutines: this process cannot decide further cases
+				// leaked live goroutines: this process cannot decide further cases; the parent
+				// continues with the remaining ones in a fresh process
+				c.Emit("resume", i+1)
+				return
 			}
 		}
 	case "replay":
@@ -1343,9 +1432,31 @@ func genCases(c *vf.Ctx) (plain, race []caseRec) {
 var digits = regexp.MustCompile(`0x[0-9a-f]+|[0-9]+`)
 
 // runShard runs one child over a list of cases and interprets how it ended.
+// runShard runs a list of cases in child processes: a child that had to stop early (a run left
+// live goroutines behind) names the index to resume at, and a fresh child takes over.
 func runShard(c *vf.Ctx, mode string, cases []caseRec, raceBuild bool, timeout time.Duration) {
+	for restarts := 0; len(cases) > 0; restarts++ {
+		next := runShardOnce(c, mode, cases, raceBuild, timeout)
+		if next <= 0 || next >= len(cases) {
+			return
+		}
+		if restarts >= 400 {
+			c.Inconclusive(fmt.Sprintf("shard abandoned after %d child restarts, %d cases not run", restarts, len(cases)-next))
+			return
+		}
+		c.Count("child_restarts", 1)
+		cases = cases[next:]
+	}
+}
+
+func runShardOnce(c *vf.Ctx, mode string, cases []caseRec, raceBuild bool, timeout time.Duration) (resume int) {
 	in, _ := json.Marshal(batch{Cases: cases})
 	res := c.RunChild(vf.ChildOpts{Name: mode, Race: raceBuild, Timeout: timeout, Stdin: in})
+	for _, r := range res.Records {
+		if r.Kind == "resume" {
+			json.Unmarshal(r.V, &resume)
+		}
+	}
 	if raceBuild {
 		reportRaces(c, res.Races)
 	}
